@@ -91,3 +91,46 @@ Definition arb_ctap1_authenticate (control_bytes : list string) (u : U) : ares v
   abind (arb_slice u2) (fun kh u3 =>
   AOk (VRec [("control_byte", VEnum (nth (Z.to_nat ix) control_bytes "")); ("challenge", VBytes c); ("app_id", VBytes a);
              ("key_handle", VBytes kh)]) u3))).
+
+(* ---- the three request enumerations (derive(Arbitrary)): variant by index, then the variant's payload.
+   The result is (variant path, payload value). *)
+Definition control_bytes : list string := ["CheckOnly"; "EnforceUserPresenceAndSign"; "DontEnforceUserPresenceAndSign"].
+
+Definition pick_variant {A} (variants : list (string * A)) (u : U) : ares (string * A) :=
+  let '(ix, u1) := arb_variant (blen variants) u in
+  match nth_error variants (Z.to_nat ix) with
+  | Some va => AOk va u1
+  | None => APanic "variant index out of range"
+  end.
+
+Definition arb_ctap2_request (e : env) (variants : list (string * list ty)) (u : U) : ares (string * val) :=
+  abind (pick_variant variants u) (fun va u1 =>
+    match snd va with
+    | [] => AOk (fst va, VUnit) u1
+    | [TNamed n] =>
+        if String.eqb n "operation::VendorOperation"
+        then let '(c, u2) := arb_u8 u1 in AOk (fst va, VZ c) u2                       (* VendorOperation(u8) *)
+        else abind (arb_ty e type_fuel (TNamed n) u1) (fun v u2 => AOk (fst va, v) u2)
+    | _ => APanic "unexpected variant payload"
+    end).
+
+Definition arb_ctap1_request (variants : list (string * list ty)) (u : U) : ares (string * val) :=
+  abind (pick_variant variants u) (fun va u1 =>
+    match snd va with
+    | [] => AOk (fst va, VUnit) u1
+    | [TNamed n] =>
+        if String.eqb n "ctap1::register::Request" then abind (arb_ctap1_register u1) (fun v u2 => AOk (fst va, v) u2)
+        else if String.eqb n "ctap1::authenticate::Request" then abind (arb_ctap1_authenticate control_bytes u1) (fun v u2 => AOk (fst va, v) u2)
+        else APanic "unknown CTAP1 variant"
+    | _ => APanic "unexpected variant payload"
+    end).
+
+Definition arb_authenticator_request (e : env) (top v1 v2 : list (string * list ty)) (u : U) : ares (string * val) :=
+  abind (pick_variant top u) (fun va u1 =>
+    match snd va with
+    | [TNamed n] =>
+        if String.eqb n "ctap1::Request" then abind (arb_ctap1_request v1 u1) (fun r u2 => AOk (fst va ++ ":" ++ fst r, snd r) u2)
+        else if String.eqb n "ctap2::Request" then abind (arb_ctap2_request e v2 u1) (fun r u2 => AOk (fst va ++ ":" ++ fst r, snd r) u2)
+        else APanic "unknown protocol variant"
+    | _ => APanic "unexpected variant payload"
+    end).
